@@ -560,6 +560,7 @@ def oracle_c05(obs: Obs) -> list[Violation]:
     cur: dict[int, str] = {}
     tr_conn: dict[int, int] = {}
     lost: dict[int, dict] = {}
+    answered: dict[int, dict] = {}
     for e in obs.trace:
         k = e["kind"]
         if k == "transport_new" and e.get("conn") is not None:
@@ -568,6 +569,15 @@ def oracle_c05(obs: Obs) -> list[Violation]:
             # the transport has just told the library that the link is gone (EOF read / connection_lost with an
             # error): that fatal error takes effect there and then, whatever else the connection is waiting for
             lost.setdefault(tr_conn[e["tr"]], e)
+        elif k == "rx" and e.get("type") == 6 and tr_conn:
+            # the client has answered the device's DisconnectRequest: that disconnect has taken effect -- no connect
+            # phase completing in the same moment may carry the connection on to a later state
+            cid_ = tr_conn[max(tr_conn)]
+            if any(x["kind"] == "deliver" and x.get("type") == 5 and x.get("conn") == cid_ and x["seq"] < e["seq"] for x in obs.trace):
+                answered.setdefault(cid_, e)
+        elif k == "state" and e["conn"] in answered and e["value"].name != "CLOSED":
+            ae = answered[e["conn"]]
+            v.append(Violation("C05", f"c05:disconnect-undone:{e['value'].name}-after-DisconnectResponse", f"conn{e['conn']}: DisconnectResponse written at seq {ae['seq']} t={ae['t']}, state set to {e['value'].name} at seq {e['seq']} t={e['t']}"))
         elif k == "state" and e["conn"] in lost and e["value"].name != "CLOSED":
             le = lost[e["conn"]]
             v.append(Violation("C05", f"c05:fatal-error-undone:{e['value'].name}-after-{le['kind']}", f"conn{e['conn']}: the transport reported {le['kind']} at seq {le['seq']} t={le['t']}, yet the state was set to {e['value'].name} at seq {e['seq']} t={e['t']}"))
@@ -597,6 +607,9 @@ def oracle_c05(obs: Obs) -> list[Violation]:
                 v.append(
                     Violation("C05", f"c05:phase-returned-normally-in:{e['state']}", f"{e['phase']} phase returned with state {e['state']}, expected {want}")
                 )
+    for cid_, ae in answered.items():
+        if cur.get(cid_) != "CLOSED":
+            v.append(Violation("C05", f"c05:disconnect-undone:still-{cur.get(cid_)}", f"conn{cid_}: DisconnectResponse written at t={ae['t']} but the connection is {cur.get(cid_)} at the end"))
     for x in obs.turn_inconsistency[:1]:
         v.append(Violation("C05", "c05:is_connected-mismatch-at-turn", x))
     for x in obs.reuse[:1]:
